@@ -314,6 +314,12 @@ def _alloc_candidates_multiple_providers(rg_ctx, rw_ctx, rp_candidates):
     # values of rp_tuples because while sharing providers are root providers,
     # they have their "anchor" providers for the second value.
     root_ids = rp_candidates.all_rps
+    # A sharing provider is not necessarily a root: it is anchored at the
+    # trees it shares with, but its own tree must be loaded as well to build
+    # its summary.
+    root_ids |= set(
+        root_id for _, root_id in res_ctx.get_providers_with_root(
+            rg_ctx.context, rp_candidates.rps, None))
 
     # Get a dict, keyed by resource provider internal ID, of trait string names
     # that provider has associated with it
